@@ -2,7 +2,7 @@
 """Confirm a seeded change and run the checks against it.
 usage: tools/seed_check.py <seed dir with patch.diff, demo.rs, meta.json> [--props C01,C02] [--all]
  1. fresh scratch worktree of /repo (outside /repo and /verif): demo must PASS without the patch
- 2. with the patch: crate builds, `cargo test -p kira --lib` passes, demo must FAIL
+ 2. with the patch: crate builds, `cargo test -p kira --lib` and the three existing integration tests pass, demo must FAIL
  3. git -C /repo apply patch; run the checks; git -C /repo checkout -- .  (always undone)
 Prints a JSON summary."""
 import json, os, subprocess, sys, shutil, tempfile
@@ -38,6 +38,11 @@ def main():
         out['builds'] = 'Finished' in o
         rc, o = sh('timeout 1200 cargo test --offline -p kira --lib 2>&1 | grep "test result"', cwd=wt, env=env)
         out['unit_tests'] = o.strip()
+        # the integration tests that already exist (not the demo)
+        os.rename(os.path.join(wt, 'crates/kira/tests/seed_demo.rs'), os.path.join(wt, 'seed_demo.rs.off'))
+        rc, o = sh('timeout 1200 cargo test --offline -p kira --test change_sample_rate --test streaming_sound_stops_on_error --test sync_send 2>&1 | grep "test result"', cwd=wt, env=env)
+        out['existing_integration_tests'] = ' '.join(o.split('\n')).strip()
+        os.rename(os.path.join(wt, 'seed_demo.rs.off'), os.path.join(wt, 'crates/kira/tests/seed_demo.rs'))
         rc, o = sh('timeout 900 cargo test --offline -p kira --test seed_demo 2>&1 | tail -25', cwd=wt, env=env)
         out['demo_with_patch'] = 'fails (as required)' if ('test result: FAILED' in o or 'error: test failed' in o or rc == 124 or 'timed out' in o) else 'PASSES?: ' + o[-300:]
     finally:
